@@ -18,7 +18,14 @@ def stermF : Nat → P STerm
         | some (tl, ts) => some (.cons h tl, ts)
         | none => none
       | none => none
-    else match dropPrefix? t "ch" with
+    else match dropPrefix? t "comp" with
+    | some r => match r.toNat? with
+      | some g => match stermF n ts with
+        | some (a, ts) => some (.comp g a, ts)
+        | none => none
+      | none => none
+    | none =>
+    match dropPrefix? t "ch" with
       | some r => r.toNat?.map (fun c => (.val (.chr c), ts))
       | none => match dropPrefix? t "v" with
         | some r => r.toNat?.map (fun x => (.var x, ts))
